@@ -559,21 +559,22 @@ class PyOracle:
         raise RuntimeError("symbol %s in %s@%d is neither local, global nor free" % (name, ps.name, ps.line))
 
     def module_binding(self, name):
-        """'module' if the module body binds the name; 'via-global' if only a function does through
-        `global name`; None otherwise (builtin / undefined)."""
-        forms = self.binding_forms(self.module, name)
-        if forms & self.HOISTABLE:
-            for (ln, n, role, ps, extra) in self.occs:
-                if n == name and role == "def" and ps.kind == "module" and \
-                        not (self.line_ctx.get(ln, (0, False))[1] and not isinstance(extra, tuple)) and extra != "except":
-                    return "module"
-            return "via-global"
-        if forms:
+        """'module'    the module body has a binding form lian declares at unit level (assign/def/class/import/...)
+           'unhoisted' the module body binds the name only by forms that get no scope-wide declaration (findings)
+           'via-global' only functions bind it, through a `global` statement
+           None        nothing binds it (builtin / undefined)"""
+        own = self.binding_forms(self.module, name, "own")
+        if own & self.HOISTABLE:
+            return "module"
+        if own:
             return "unhoisted"
+        if self.binding_forms(self.module, name, "declared"):
+            return "via-global"
         return None
 
-    def binding_forms(self, owner_ps, name):
-        """set of binding forms of the variable (owner scope, name):
+    def binding_forms(self, owner_ps, name, where=None):
+        """set of binding forms of the variable (owner scope, name); where='own': only by statements of the owner
+        scope itself, where='declared': only by statements of other scopes (through global / nonlocal):
              param / assign / def / class / import            -> lian has a declaration row the whole scope sees
              aug / except-as / except-body / import-in-block / def-in-block / class-in-block
                                                               -> (see the known findings) not hoisted"""
@@ -583,6 +584,8 @@ class PyOracle:
                 continue
             o, how = (ps, "param") if role == "param" else self.owner(ps, n)
             if o is not owner_ps:
+                continue
+            if (where == "own" and ps is not owner_ps) or (where == "declared" and ps is owner_ps):
                 continue
             depth, in_exc = self.line_ctx.get(ln, (0, False))
             if role == "param":
@@ -675,6 +678,17 @@ UNHOISTED_KIND = {frozenset(["aug"]): "augassign-only-binding",
                   frozenset(["import-in-block"]): "imported-only-inside-blocks"}
 
 
+def pick_signature(lang, ukind, cks, eks, prop="C05"):
+    """(chosen kind, expected kind) among the candidates (most specific first): the first pair that is an open
+    known finding; if there is none, the most specific pair."""
+    from harness import common
+    for ek in eks:
+        for ck in cks:
+            if common.classify(prop, (prop, lang, ukind, ck, ek))[0] == "known":
+                return ck, ek
+    return cks[0], eks[0]
+
+
 def decl_name(d):
     if d["op"] in ("import_stmt", "from_import_stmt"):
         if d.get("alias"):
@@ -739,57 +753,71 @@ def compare_unit(unit, oracle, bind, lang="python", imports=None, col=None):
             stats["symbols"] += 1
             d = bind.describe(s["symbol_id"])
             if exp is not None:
-                ok, ekind, edesc = exp(d)
+                ok, ekinds, edesc = exp(d)
                 if not ok:
-                    ck = chosen_kind(d, unit, ps) if d["kind"] != "decl" or d["unit"] == unit else "other-unit"
-                    out.append(((lang, ukind, _imp_chosen(d, unit), ekind),
+                    ck, ekind = pick_signature(lang, ukind, [_imp_chosen(d, unit)], ekinds)
+                    out.append(((lang, ukind, ck, ekind),
                                 "%s:%d `%s` (%s) bound to %s, expected %s" % (unit, line, name, ukind, _short(d), edesc)))
                 continue
-            forms = oracle.binding_forms(owner, name)
+            forms = oracle.binding_forms(owner, name, "own")
             if owner.kind == "module":
                 mb = oracle.module_binding(name)
+                unit_decl = (d["kind"] == "decl" and d["unit"] == unit and d["owner"][0] == "unit"
+                             and decl_name(d) == name)
                 if mb in ("module", "unhoisted"):
                     ekind = EXPECTED_KIND[how]
-                    ok = (d["kind"] == "decl" and d["unit"] == unit and d["owner"][0] == "unit"
-                          and decl_name(d) == name)
+                    ok = unit_decl
                     edesc = "the module-level declaration of %s" % name
+                elif mb == "via-global":
+                    # the variable exists only through `global` in functions: there is no statement at module
+                    # level a declaration row could come from; unresolved is accepted as well as a unit-level row
+                    ekind = "unresolved" if how in ("module", "implicit") else "unresolved-" + EXPECTED_KIND[how][7:]
+                    ok = d["kind"] == "unresolved" or unit_decl
+                    edesc = "unresolved (no module-level declaration of %s; bound only through a global statement)" % name
                 else:
                     ekind = "unresolved" if how in ("module", "implicit") else "unresolved-" + EXPECTED_KIND[how][7:]
                     ok = d["kind"] == "unresolved"
-                    edesc = "unresolved (no module-level declaration of %s%s)" % (
-                        name, "; bound only through a global statement" if mb else "")
+                    edesc = "unresolved (no declaration of %s)" % name
             else:
                 ekind = EXPECTED_KIND[how]
                 ok = (d["kind"] == "decl" and d["unit"] == unit and (d["owner"][0], d["owner"][1]) ==
                       (owner.kind, owner.line) and decl_name(d) == name)
                 edesc = "%s of %s %s (line %d)" % (how, owner.kind, owner.name, owner.line)
-            if forms and not (forms & oracle.HOISTABLE):
-                ekind = UNHOISTED_KIND.get(frozenset(forms), "bound-only-by-unhoisted-forms(mixed)")
+            if ok:
+                continue
+            # root-cause qualifiers, most specific first; the first one that is an OPEN known finding names the
+            # signature (so that repairing one defect does not hide behind / get blamed on another)
+            eks = []
+            if name in block_imports:
+                eks.append("name-also-imported-inside-a-module-level-block")
             if owner.kind == "func" and owner.parent is not None and owner.parent.kind == "class" \
                     and ps is not owner and _first_param(owner) == name:
-                ekind = "first-parameter-of-method-captured-by-nested-scope"
-            if name in block_imports:
-                ekind = "name-also-imported-inside-a-module-level-block"
-            if not ok:
-                ck = chosen_kind(d, unit, ps)
-                if d["kind"] == "decl" and d["unit"] == unit:
-                    if decl_name(d) != name:
-                        ck = "other-name"
-                    elif d["owner"][0] == "func":
-                        # a def/class/import row of a name that its function declares global / nonlocal
-                        dps = oracle.scope_by_ident("func", d["owner"][1])
-                        if dps is not None:
-                            try:
-                                sym = dps.table.lookup(name)
-                                if sym.is_declared_global():
-                                    ck = "local-row-under-own-global-decl" if dps is ps else \
-                                        "local-row-under-enclosing-global-decl"
-                                elif sym.is_nonlocal():
-                                    ck = "local-row-under-nonlocal-decl"
-                            except KeyError:
-                                pass
-                out.append(((lang, ukind, ck, ekind),
-                            "%s:%d `%s` (%s) bound to %s, expected %s" % (unit, line, name, ukind, _short(d), edesc)))
+                eks.append("first-parameter-of-method-captured-by-nested-scope")
+            if forms and not (forms & oracle.HOISTABLE):
+                eks.append(UNHOISTED_KIND.get(frozenset(forms), "bound-only-by-unhoisted-forms(mixed)"))
+            eks.append(ekind)
+            cks = []
+            base_ck = chosen_kind(d, unit, ps)
+            if d["kind"] == "decl" and d["unit"] == unit:
+                if decl_name(d) != name:
+                    base_ck = "other-name"
+                elif d["owner"][0] == "func":
+                    # a def/class/import row of a name that its function declares global / nonlocal
+                    dps = oracle.scope_by_ident("func", d["owner"][1])
+                    if dps is not None:
+                        try:
+                            sym = dps.table.lookup(name)
+                            if sym.is_declared_global():
+                                cks.append("local-row-under-own-global-decl" if dps is ps else
+                                           "local-row-under-enclosing-global-decl")
+                            elif sym.is_nonlocal():
+                                cks.append("local-row-under-nonlocal-decl")
+                        except KeyError:
+                            pass
+            cks.append(base_ck)
+            ck, ekind = pick_signature(lang, ukind, cks, eks)
+            out.append(((lang, ukind, ck, ekind),
+                        "%s:%d `%s` (%s) bound to %s, expected %s" % (unit, line, name, ukind, _short(d), edesc)))
     return out, stats
 
 
